@@ -416,8 +416,16 @@ func runC03(c *mon.Ctx) {
 					// a string field of the proto-event with a byte that is no UTF-8, and the same field with another such
 					// byte: two proto-events. Build refuses them, or makes two events of them.
 					pa, pb := ps, ps
-					field := gen.Pick(vr, []string{"type", "state_key", "sender", "redacts"})
+					field := gen.Pick(vr, []string{"type", "state_key", "sender", "redacts", "prev_events", "auth_events"})
 					switch field {
+					case "prev_events":
+						// (tenth seeding round, C03-T: the reference lists were judged after encoding/json had put U+FFFD for every such byte)
+						pa.Prev, pb.Prev = append(append([]string{}, ps.Prev...), "$abc\xff"), append(append([]string{}, ps.Prev...), "$abc\xfe")
+					case "auth_events":
+						pa.Auth, pb.Auth = append(append([]string{}, ps.Auth...), "$abc\xff"), append(append([]string{}, ps.Auth...), "$abc\xfe")
+						if t.Domainless && ps.Type == "m.room.create" {
+							field = ""
+						}
 					case "type":
 						pa.Type, pb.Type = ps.Type+"\xff", ps.Type+"\xfe"
 					case "state_key":
